@@ -182,6 +182,7 @@ def alias_case(case):
     if not nontriv_out:
         res["nontrivial"] = False
         bump(res, "alias_entries_without_successful_output")
+        res["stats"]["alias_entries_without_output"] = [case["label"]]
     res["sample"] = {"monitor": "alias", "alias": case["alias"], "expansion": case["expansion"], "inputs": [n for n, _ in inputs]}
     return res
 
@@ -985,7 +986,7 @@ def run(chk):
         cases, facts = alias_cases(chk)
         chk.extra["alias_table"] = facts
         chk.extra["alias_entries_total"] = len(cases)
-        chk.exhaustive = True
+        chk.extra["alias_table_enumerated_exhaustively"] = True
         chk.pmap(alias_case, cases, chunksize=4, label="alias table")
         for msg in facts["table_inconsistencies"]:
             if msg.startswith("-p2p"):
